@@ -372,16 +372,25 @@ func cmdRun(args []string) int {
 	plan := p.Plan(*tier, *seed)
 	var shards []shard
 	exhaustive := len(plan) > 0
+	var totalN int64
+	for _, sg := range plan {
+		if sg.Chunk <= 0 {
+			totalN += sg.N
+		}
+	}
+	// about 6 shards per worker over the whole plan (not per segment: worker
+	// start-up is expensive in the race and coverage builds)
+	perShard := (totalN + int64(6**workers) - 1) / int64(6**workers)
+	if perShard < 1 {
+		perShard = 1
+	}
 	for _, sg := range plan {
 		if !sg.Exhaustive {
 			exhaustive = false
 		}
 		chunk := sg.Chunk
 		if chunk <= 0 {
-			chunk = (sg.N + int64(4**workers) - 1) / int64(4**workers)
-			if chunk < 1 {
-				chunk = 1
-			}
+			chunk = perShard
 		}
 		for lo := int64(0); lo < sg.N; lo += chunk {
 			hi := lo + chunk
